@@ -521,6 +521,87 @@ theorem spec_suspended_clause_on_model (s : JobList) (h : Inv s) (o : Out) :
     | false => simp [docCheck, becameSuspended, hr]
     | true => simp [docCheck, becameSuspended, insertVerdict, step, handleJobStatus, hr]
 
+/-! ### which jobs `fg`, `bg` and `wait` may remove -/
+
+/-- ★ `fg` touches only the job it resumes.  For every table that satisfies the invariant, every
+    argument list and every halted `outcome`: either the table is unchanged, or there is ONE slot
+    `index` — every other job keeps its entry (pid, state, flags, name) and its number, no slot is
+    new; the resumed job stays in its slot (same pid) or is removed, and it is removed only if it
+    ended in a state that is not alive.  In particular a job that finished in the background and
+    has not been reported by `jobs` or retrieved by `wait` survives every `fg` (docs: "Job list";
+    `fg.md`: "If the resumed job finishes, it is removed from the job list"). -/
+theorem fg_touches_only_resumed_job (s : JobList) (h : Inv s) (m i : Bool) (outcome : PState)
+    (args : List Str) (hout : outcome ≠ .running) :
+    (fgBuiltin s m i outcome args).2 = s ∨
+    ∃ index job, s.get index = some job ∧
+      (∀ k, k ≠ index → (fgBuiltin s m i outcome args).2.get k = s.get k) ∧
+      ((fgBuiltin s m i outcome args).2.get index = none →
+        (if job.state.isAlive then outcome else job.state).isAlive = false) ∧
+      (∀ j', (fgBuiltin s m i outcome args).2.get index = some j' → j'.pid = job.pid) := by
+  rcases fgBuiltin_table s m i outcome args with e | ⟨index, e⟩
+  · exact Or.inl e
+  · rw [e]
+    cases hg : gets s.entries index with
+    | none => left; unfold fgResume; simp [hg]
+    | some job =>
+      right
+      obtain ⟨h1, h2⟩ := fgResume_slots s h index outcome job hg hout
+      refine ⟨index, job, hg, h1, h2, ?_⟩
+      intro j' hj'
+      rcases fgResume_sub s index outcome index with hn | ⟨a, a', ha, ha', hp⟩
+      · unfold JobList.get at hj'; rw [hn] at hj'; cases hj'
+      · unfold JobList.get at hj'; rw [ha'] at hj'; cases hj'
+        rw [hg] at ha; cases ha; exact hp
+
+/-- ★ `bg` removes nothing and records no state change: every slot holds the same pid in the same
+    state afterwards (only `expected_state`, `$!` and the current-job selection change) -/
+theorem bg_removes_nothing (s : JobList) (m : Bool) (args : List Str) (k : Nat) :
+    ((bgBuiltin s m args).2.get k).map (fun j => (j.pid, j.state)) = (s.get k).map (fun j => (j.pid, j.state)) :=
+  bgBuiltin_sameStates s m args k
+
+/-- ★ `wait` removes a job only if it has finished or is not owned; every other slot is exactly as before -/
+theorem wait_removes_only_finished (s : JobList) (args : List Str) (k : Nat) :
+    (waitBuiltin s args).2.get k = s.get k ∨
+    ((waitBuiltin s args).2.get k = none ∧ ∃ j, s.get k = some j ∧ (j.state.isAlive = false ∨ j.owned = false)) := by
+  -- the property holds relative to the first table along every `job_status` step
+  have step1 : ∀ (t : JobList) (i : Nat), (∀ k, t.get k = s.get k ∨
+        (t.get k = none ∧ ∃ j, s.get k = some j ∧ (j.state.isAlive = false ∨ j.owned = false))) →
+      ∀ k, (jobStatus t i).2.get k = s.get k ∨
+        ((jobStatus t i).2.get k = none ∧ ∃ j, s.get k = some j ∧ (j.state.isAlive = false ∨ j.owned = false)) := by
+    intro t i ht k
+    unfold jobStatus
+    cases hg : gets t.entries i with
+    | none => exact ht k
+    | some job =>
+      simp only
+      by_cases hk : k = i
+      · subst hk
+        have hsk : s.get k = some job := by
+          rcases ht k with e | ⟨e, _⟩
+          · rw [← e]; exact hg
+          · unfold JobList.get at e; rw [hg] at e; cases e
+        cases ho : job.owned with
+        | false =>
+          simp only [Bool.not_false, if_true]
+          right; exact ⟨by unfold JobList.get; rw [remove_gets]; simp, job, hsk, Or.inr ho⟩
+        | true =>
+          simp only [Bool.not_true, Bool.false_eq_true, if_false]
+          cases ha : job.state.isAlive with
+          | true => simp only [if_true]; exact ht k
+          | false =>
+            simp only [Bool.false_eq_true, if_false]
+            right; exact ⟨by unfold JobList.get; rw [remove_gets]; simp, job, hsk, Or.inl ha⟩
+      · have hrem : (t.remove i).2.get k = t.get k := by
+          unfold JobList.get; rw [remove_gets]; simp [hk]
+        split
+        · rw [hrem]; exact ht k
+        · split
+          · exact ht k
+          · rw [hrem]; exact ht k
+  exact waitBuiltin_ind (fun t => ∀ k, t.get k = s.get k ∨
+      (t.get k = none ∧ ∃ j, s.get k = some j ∧ (j.state.isAlive = false ∨ j.owned = false)))
+    step1 s args (fun k => Or.inl rfl) k
+
 /-! ### non-vacuity: tables with holes, and the three seeded regressions as statements -/
 
 /-- a reachable table with a HOLE: job 1 finished and was reported by `jobs`, job 2 (suspended) and
@@ -587,5 +668,18 @@ example :
     resolved s "%+1".toList = none ∧ (docDesignates s "%+1".toList).join = none ∧
     resolved s "%01".toList = some 0 ∧ (docDesignates s "%01".toList).join = some 0 := by
   decide
+
+/-- seed "`fg` purges every finished job": job 1 finished in the background and has not been
+    reported; `fg` of job 2 leaves it in slot 0 (`fg_touches_only_resumed_job`), and `wait %1`
+    still retrieves its status afterwards -/
+example :
+    let ops := [Op.insertJob 103 (.exited 0) false "a".toList, .insertJob 102 (.stopped 19) true "b".toList,
+                .fg true false (.stopped 121) []]
+    PathPre JobList.empty ops ∧
+    (run JobList.empty ops).get 0 = (run JobList.empty (ops.take 2)).get 0 ∧
+    ((run JobList.empty ops).get 0).isSome ∧
+    (waitBuiltin (run JobList.empty ops) ["%1".toList]).1.status = 0 ∧
+    fgLicence (run JobList.empty (ops.take 2)) (run JobList.empty ops) (some 1) (some (.stopped 121)) = true := by
+  refine ⟨by simp [PathPre]; decide, by decide, by decide, by decide, by decide⟩
 
 end YashModel.Job
